@@ -122,7 +122,7 @@ pub fn run(tier: Tier, _replay: Option<String>) -> i32 {
             return 2;
         }
     };
-    c.rule = "histories over the file tree: start = copy of /repo's working tree with a proptest-chosen set of perturbations of fully generated files (delete, truncate, stale content of another file of the same class, extra look-alike file, appended garbage) over all artefact classes (world/login/base modules and mod.rs files, opcode tables, helper tables, doc pages, IR, Wireshark fragments), then 1..2 generator runs (fresh processes). Oracle: (1) a run from the pristine copy reproduces every file of /repo's working tree byte for byte (files that are 0-byte placeholders in this snapshot are compared against a second independent run instead); (2) a second run changes nothing; (3) every perturbed start converges to the same tree, extras removed; (4) two independent runs give identical trees. Non-trivial = at least one perturbation; distinct = multiset of (class, perturbation kind).".into();
+    c.rule = "histories over the file tree: start = copy of /repo's working tree with a proptest-chosen set of perturbations of fully generated files (delete, truncate, stale content of another file of the same class, extra look-alike file, appended garbage) over all artefact classes (world/login/base modules and mod.rs files, opcode tables, helper tables, doc pages, IR, Wireshark fragments), then 1..2 generator runs (fresh processes). Oracle: (1) a run from the pristine copy reproduces every file of /repo's working tree byte for byte (files that are 0-byte placeholders in this snapshot are compared against a second independent run instead); (2) a second run changes nothing; (3) every perturbed start converges to the same tree, extras removed; (4) two independent runs give identical trees; (5) a run that reaches the tree through a symbolic link and (6) a run on the tree moved below directories named like its own (src/wowm/.../wow_message_parser) give that same tree. Non-trivial = at least one perturbation; distinct = multiset of (class, perturbation kind).".into();
     c.assume("nondeterminism that needs a rare hash seed or thread interleaving is only sampled by the number of generator runs performed");
     // reference run
     let r = match Scratch::new() {
@@ -212,6 +212,46 @@ pub fn run(tier: Tier, _replay: Option<String>) -> i32 {
                     }
                 } else {
                     c.inconclusive("cannot create a symbolic link in the temp directory");
+                }
+            }
+        }
+    }
+    // (6) the tree somewhere else: every directory above it named like a directory inside it (a clone into a directory
+    // called `wow_message_parser`, a checkout below some `src/`): the result must not depend on where the tree lives
+    {
+        c.eval();
+        c.nontrivial_str("relocated-workspace");
+        match Scratch::new() {
+            Err(e) => c.inconclusive(&e),
+            Ok(s) => {
+                let victim = reference.keys().find(|k| class_of(k) == Some("world-module")).cloned();
+                if let Some(v) = &victim {
+                    let _ = std::fs::remove_file(s.path(v));
+                }
+                let nest = std::env::temp_dir().join(format!("wm_verif_nest_{}", std::process::id()));
+                let _ = std::fs::remove_dir_all(&nest);
+                let deep = nest.join("src/wowm/wow_world_messages/wow_login_messages/wow_world_base/wowm_language/docs/tests/wow_message_parser");
+                let moved = std::fs::create_dir_all(deep.parent().unwrap()).is_ok() && std::fs::rename(&s.root, &deep).is_ok();
+                if moved {
+                    let out = std::process::Command::new(&bin).env("WOWM_VERIF_WORKSPACE", &deep).env("RUST_BACKTRACE", "0").current_dir(&deep).output();
+                    let snap = snapshot_dir(&deep);
+                    let _ = std::fs::rename(&deep, &s.root);
+                    let _ = std::fs::remove_dir_all(&nest);
+                    match out {
+                        Ok(o) if o.status.code() == Some(0) => {
+                            let d = diff(&reference, &snap);
+                            if !(d.0.is_empty() && d.1.is_empty() && d.2.is_empty()) {
+                                c.fail("c08:relocated-workspace-differs", &format!("run on the same tree below directories named src/wowm/wow_world_messages/.../wow_message_parser (one module deleted beforehand): {}", summarize(&d)), json!({"deleted": victim, "location": "src/wowm/wow_world_messages/wow_login_messages/wow_world_base/wowm_language/docs/tests/wow_message_parser"}));
+                            }
+                        }
+                        Ok(o) => {
+                            c.fail("c08:relocated-workspace-run-fails", &format!("exit {:?} when the workspace lives below directories named like its own: {}", o.status.code(), String::from_utf8_lossy(&o.stderr).lines().rev().take(3).collect::<Vec<_>>().join(" | ")), json!({}));
+                        }
+                        Err(e) => c.inconclusive(&e.to_string()),
+                    }
+                } else {
+                    let _ = std::fs::remove_dir_all(&nest);
+                    c.inconclusive("cannot move the scratch tree inside the temp directory");
                 }
             }
         }
